@@ -225,6 +225,15 @@ theorem watch_returns_partial {α : Type} (ls : List (Flow.Lbl α)) (s : Flow.S 
   · rcases hq.1 i with e | e <;> rcases hp with hp | hp <;> rw [hp] at e <;> cases e
   · exact h12
 
+/-- **bounded in steps**: once the transport moves, a lookup inside `Watch` is released after at most `work` further steps
+of the client (or the client is in S12): the client cannot keep itself busy for ever (no livelock) -/
+theorem watch_released_in_bounded_steps {α : Type} (ls0 : List (Flow.Lbl α)) (s : Flow.S α)
+    (h0 : Flow.run Generated.seq.reqCap Flow.init ls0 = some s) :
+    ∃ n, ∀ (ls : List (Flow.Lbl α)) (s' : Flow.S α), (∀ l ∈ ls, l.internal = true) → Flow.run Generated.seq.reqCap s ls = some s' →
+      ls.length ≤ Flow.work n s := by
+  obtain ⟨n, hn⟩ := Flow.supp_reachable Flow.supp_init h0
+  exact ⟨n, fun ls s' hall h => (Flow.comes_to_rest (by decide) (Flow.reachable h0) hn ls hall h).1⟩
+
 /-- below capacity a lookup inside `Watch` is never stuck: with room in the channel its `sendRequest` completes -/
 theorem watch_returns_below_capacity {α : Type} (s : Flow.S α) (i : Nat) (r : α) (hp : s.pc i = .locked r)
     (hroom : s.queue.length < Generated.seq.reqCap) : (Flow.step Generated.seq.reqCap s (.pEnq i)).isSome = true := by
